@@ -30,4 +30,13 @@ PROPS = {
    'must_reach': ['C03', 'base'],
    'technique': 'symbolic execution; generalised-inverse identities against N=A\'PA computed by an exact rational oracle',
    'bounds': ADJ_BOUNDS, 'outside': ADJ_OUT + '; positive semi-definiteness is implied by QNQ=Q with N psd and not queried separately', 'assumptions': ADJ_ASSUME},
+ 'C04': {
+   'e1': [{'harness': 'hist', 'entry_points': ['AdjEnvelope/AdjCholDec/AdjGSO/AdjSVD: unknowns, residuals, sum_of_squares, defect, q_xx, q_bb, q0_xx, lindep, min_x(), min_x(n,idx), reset',
+                                                'Adj: x, r, rtr, defect, q_xx, q_bb, set_algorithm'], 'budget_s': {'quick': 400, 'thorough': 3000}}],
+   'must_reach': ['hist', 'hist-adj'],
+   'technique': 'symbolic execution of every bounded API call sequence on the real solver objects; last answer equals a fresh object\'s answer as a solver-checked identity in the symbolic right-hand side',
+   'bounds': 'skeletons lev4-datum, lev5-free, two-components, dep-cols (+vec2d-free, band-6x5, zero-col thorough) and one svd-family matrix; all call sequences of length <= 3 (quick) / <= 4 (thorough): '
+             'first call from the full operation table (17-19 operations incl. all index pairs listed in harness/h_hist.cpp), later calls from the reduced table (11-13 operations); two regularisation subsets + all; right-hand side symbolic',
+   'outside': 'longer histories at object level (the cache step itself is covered for histories of any length by the CBMC kernel mtf_step); LocalNetwork histories; ' + ADJ_OUT,
+   'assumptions': ADJ_ASSUME},
 }
